@@ -179,12 +179,14 @@ Qed.
 (* no ended context, not disposed, not crashed, no WhenQuery binding with a context *)
 Definition quiet (s : sst) : Prop :=
   ss_done s = [] /\ ss_disposed s = false /\ ss_crashed s = false /\
-  (forall q, In q (ss_qb s) -> qb_ctx q = None).
+  (forall q, In q (ss_qb s) -> qb_ctx q = None) /\
+  (forall p, In p (ss_sctx s) -> In (fst (snd p)) (ss_allctx s)).
 
 Lemma quiet_frame : forall s s', quiet s -> frame s s' -> quiet s'.
 Proof.
-  intros s s' [A [B [C D]]] F. destruct F. repeat split; try congruence.
-  intros q Hq. destruct (fr_qb0 q Hq) as [H|H]; [auto | exact H].
+  intros s s' [A [B [C [D E]]]] F. destruct F. repeat split; try congruence.
+  - intros q Hq. destruct (fr_qb0 q Hq) as [H|H]; [auto | exact H].
+  - intros p Hp. destruct (fr_sctx0 p Hp) as [H|H]; [apply fr_allctx0; auto | exact H].
 Qed.
 
 Lemma fold_frame : forall (A : Type) (f : sst -> A -> sst),
@@ -283,4 +285,459 @@ Proof.
   apply fold_frame; [|exact Hq].
   intros st x Hst. apply fold_frame; [|exact Hst].
   intros st' id _. apply visit_tb_frame.
+Qed.
+
+(* ---- WhenQuery / WhenQueue / WhenQueueEnds / state contexts *)
+
+Lemma in_map_incl : forall (A : Type) (f : A -> nat) (l l' : list A) i,
+  incl l l' -> In i (map f l) -> In i (map f l').
+Proof.
+  intros A f l l' i Hin H. apply in_map_iff in H. destruct H as [x [Hx Hi]].
+  apply in_map_iff. exists x. split; [exact Hx | apply Hin; exact Hi].
+Qed.
+
+Lemma frame_set_misc' : forall s qb wq qe sctx cl cr,
+  cr = ss_crashed s ->
+  incl qb (ss_qb s) -> incl wq (ss_wq s) -> incl qe (ss_qe s) -> incl sctx (ss_sctx s) ->
+  (forall i, mem i cl = true -> mem i (ss_closed s) = true \/ In i (oids s)) ->
+  (forall i, mem i (ss_closed s) = true -> mem i cl = true) ->
+  frame s (set_misc s qb wq qe sctx cl cr).
+Proof.
+  intros s qb wq qe sctx cl cr Hcr Hqb Hwq Hqe Hsc Hc Hm. constructor; unfold oids, is_closed; psimpl.
+  - lia.
+  - reflexivity.
+  - reflexivity.
+  - reflexivity.
+  - reflexivity.
+  - exact Hcr.
+  - intros i H. left. repeat rewrite in_app_iff in *.
+    destruct H as [H|[H|[H|[H|H]]]]; [tauto | | | | tauto].
+    + right. left. eapply in_map_incl; eassumption.
+    + right. right. left. eapply in_map_incl; eassumption.
+    + right. right. right. left. apply Hqe. exact H.
+  - intros i H. destruct (Hc i H); tauto.
+  - intros i H. auto.
+  - intros q H. left. apply Hqb. exact H.
+  - intros p H. left. apply Hsc. exact H.
+  - apply incl_refl.
+Qed.
+
+Lemma frame_set_misc : forall s qb wq qe sctx cl,
+  incl qb (ss_qb s) -> incl wq (ss_wq s) -> incl qe (ss_qe s) -> incl sctx (ss_sctx s) ->
+  (forall i, mem i cl = true -> mem i (ss_closed s) = true \/ In i (oids s)) ->
+  (forall i, mem i (ss_closed s) = true -> mem i cl = true) ->
+  frame s (set_misc s qb wq qe sctx cl (ss_crashed s)).
+Proof. intros. apply frame_set_misc'; auto. Qed.
+
+Lemma incl_filter : forall (A : Type) (f : A -> bool) l, incl (filter f l) l.
+Proof. intros A f l x H. apply filter_In in H. tauto. Qed.
+
+Lemma fold_close_hits : forall (hit : nat * N -> bool) l cl i,
+  mem i (fold_left (fun cl p => if hit p then close cl (fst p) else cl) l cl) = true ->
+  mem i cl = true \/ In i (map fst l).
+Proof.
+  intros hit. induction l as [|p r IH]; intros cl i H; simpl in *; [tauto|].
+  apply IH in H. destruct H as [H|H]; [|tauto].
+  destruct (hit p); [|tauto]. apply close_mem in H. destruct H; [subst; tauto | tauto].
+Qed.
+
+Lemma fold_close_hits_mono : forall (hit : nat * N -> bool) l cl i,
+  mem i cl = true ->
+  mem i (fold_left (fun cl p => if hit p then close cl (fst p) else cl) l cl) = true.
+Proof.
+  intros hit. induction l as [|p r IH]; intros cl i H; simpl; [exact H|].
+  apply IH. destruct (hit p); [apply close_mono|]; exact H.
+Qed.
+
+Lemma process_when_queue_frame : forall s qt, frame s (process_when_queue s qt).
+Proof.
+  intros s qt. unfold process_when_queue. apply frame_set_misc;
+    try apply incl_refl; try apply incl_filter.
+  - intros i H. apply fold_close_hits in H. destruct H as [H|H]; [tauto|].
+    right. unfold oids. repeat rewrite in_app_iff. tauto.
+  - intros i H. apply fold_close_hits_mono. exact H.
+Qed.
+
+Lemma fold_close_mem : forall l cl i,
+  mem i (fold_left close l cl) = true <-> mem i cl = true \/ In i l.
+Proof.
+  induction l as [|x r IH]; intros cl i; simpl; [tauto|].
+  rewrite IH, close_mem. split; intros H; intuition.
+Qed.
+
+Lemma process_queue_ends_frame : forall s, frame s (process_queue_ends s).
+Proof.
+  intros s. unfold process_queue_ends. apply frame_set_misc; try apply incl_refl.
+  - intros x H. destruct H.
+  - intros i H. apply fold_close_mem in H. destruct H as [H|H]; [tauto|].
+    right. unfold oids. repeat rewrite in_app_iff. tauto.
+  - intros i H. apply fold_close_mem. tauto.
+Qed.
+
+Lemma sctx_get_In : forall l x p, sctx_get l x = Some p -> In (x, p) l.
+Proof.
+  induction l as [|[k v] r IH]; intros x p H; simpl in H; [discriminate|].
+  destruct (Nat.eqb k x) eqn:E.
+  - inversion H. subst. apply Nat.eqb_eq in E. subst. left. reflexivity.
+  - right. apply IH. exact H.
+Qed.
+
+Lemma process_state_ctx_frame : forall s act deact, quiet s -> frame s (process_state_ctx s act deact).
+Proof.
+  intros s act deact Hq. unfold process_state_ctx. apply fold_frame; [|exact Hq].
+  intros st x Hst. destruct (sctx_get (ss_sctx st) x) as [[id t]|] eqn:E; [|apply frame_refl].
+  apply sctx_get_In in E. apply frame_set_misc; try apply incl_refl; try apply incl_filter.
+  - intros i H. apply close_mem in H. destruct H as [H|H]; [|tauto].
+    right. subst i. destruct Hst as [_ [_ [_ [_ Hs]]]]. apply Hs in E. cbn in E.
+    unfold oids. repeat rewrite in_app_iff. tauto.
+  - intros i H. apply close_mono. exact H.
+Qed.
+
+Definition pwq_step (cl : list N) (st : sst) (b : qbind) : sst :=
+  if ss_crashed st then st
+  else if negb (qfn_eval (qb_fn b) cl) && negb (ctx_done st (qb_ctx b)) then st
+  else match qb_ctx b with
+       | Some _ => set_misc st (ss_qb st) (ss_wq st) (ss_qe st) (ss_sctx st) (ss_closed st) true
+       | None =>
+         set_misc st (filter (fun x => negb (Nat.eqb (qb_id x) (qb_id b))) (ss_qb st))
+                  (ss_wq st) (ss_qe st) (ss_sctx st) (close (ss_closed st) (qb_id b)) (ss_crashed st)
+       end.
+
+Lemma pwq_fold_frame : forall cl l st,
+  quiet st -> (forall b, In b l -> qb_ctx b = None) ->
+  (forall b, In b l -> In (qb_id b) (map qb_id (ss_qb st)) \/ is_closed st (qb_id b) = true) ->
+  frame st (fold_left (pwq_step cl) l st).
+Proof.
+  intros cl. induction l as [|b r IH]; intros st Hq Hn Hin; simpl; [apply frame_refl|].
+  assert (Hb : frame st (pwq_step cl st b) /\
+               forall b', In b' r -> In (qb_id b') (map qb_id (ss_qb (pwq_step cl st b)))
+                                     \/ is_closed (pwq_step cl st b) (qb_id b') = true).
+  { unfold pwq_step. destruct Hq as [_ [_ [Hc _]]]. rewrite Hc.
+    destruct (negb (qfn_eval (qb_fn b) cl) && negb (ctx_done st (qb_ctx b))).
+    - split; [apply frame_refl|]. intros b' Hb'. apply Hin. right. exact Hb'.
+    - rewrite (Hn b (or_introl eq_refl)). split.
+      + apply frame_set_misc'; try apply incl_refl; try apply incl_filter; [congruence | |].
+        * intros i H. apply close_mem in H. destruct H as [H|H]; [|tauto]. subst i.
+          destruct (Hin b (or_introl eq_refl)) as [H|H]; [|left; exact H].
+          right. unfold oids. repeat rewrite in_app_iff. tauto.
+        * intros i H. apply close_mono. exact H.
+      + intros b' Hb'. unfold is_closed. psimpl.
+        destruct (Nat.eq_dec (qb_id b') (qb_id b)) as [Heq|Hne].
+        * right. rewrite Heq. apply close_self.
+        * destruct (Hin b' (or_intror Hb')) as [H|H].
+          -- left. apply in_map_iff in H. destruct H as [q [Hq1 Hq2]].
+             apply in_map_iff. exists q. split; [exact Hq1|]. apply filter_In. split; [exact Hq2|].
+             apply negb_true_iff. apply Nat.eqb_neq. congruence.
+          -- right. apply close_mono. exact H. }
+  destruct Hb as [Hf Hr]. eapply frame_trans; [exact Hf|]. apply IH.
+  - eapply quiet_frame; [|exact Hf]. exact Hq.
+  - intros b' Hb'. apply Hn. right. exact Hb'.
+  - exact Hr.
+Qed.
+
+Lemma process_when_query_frame : forall s live, quiet s -> frame s (process_when_query s live).
+Proof.
+  intros s live Hq. change (process_when_query s live)
+    with (fold_left (pwq_step (sclock s live)) (ss_qb s) s).
+  apply pwq_fold_frame; [exact Hq | apply Hq |].
+  intros b Hb. left. apply in_map. exact Hb.
+Qed.
+
+(* ------------------------------------------------------------ counting *)
+
+Definition P (neg : bool) (g : nat -> bool) (x : nat) : bool := if neg then negb (g x) else g x.
+Definition cnt (neg : bool) (g : nat -> bool) (sts : list nat) : nat := length (filter (P neg g) sts).
+Definition full (neg : bool) (g : nat -> bool) (sts : list nat) : bool := forallb (P neg g) sts.
+
+Lemma filter_len_le : forall (A : Type) (f : A -> bool) l, length (filter f l) <= length l.
+Proof. intros A f l. induction l as [|x r IH]; simpl; [lia|]. destruct (f x); simpl; lia. Qed.
+
+Lemma cnt_le : forall neg g sts, cnt neg g sts <= length sts.
+Proof. intros. unfold cnt. apply filter_len_le. Qed.
+
+Lemma cnt_full : forall neg g sts, cnt neg g sts = length sts <-> full neg g sts = true.
+Proof.
+  intros neg g sts. unfold cnt, full. induction sts as [|x r IH]; simpl; [tauto|].
+  destruct (P neg g x); simpl.
+  - rewrite <- IH. split; intros H; [inversion H; reflexivity | f_equal; exact H].
+  - split; [|discriminate]. intros H. pose proof (filter_len_le _ (P neg g) r). lia.
+Qed.
+
+Lemma cnt_lt_full : forall neg g sts, cnt neg g sts < length sts <-> full neg g sts = false.
+Proof.
+  intros neg g sts. pose proof (cnt_le neg g sts). pose proof (cnt_full neg g sts).
+  destruct (full neg g sts); split; intros; try lia; try discriminate; try tauto.
+  all: try (exfalso; assert (cnt neg g sts = length sts) by tauto; lia).
+  all: try (assert (cnt neg g sts <> length sts) by (intros E; apply H0 in E; discriminate); lia).
+Qed.
+
+Lemma cnt_ext : forall neg g g' l, (forall y, In y l -> g y = g' y) -> cnt neg g l = cnt neg g' l.
+Proof.
+  intros neg g g' l H. unfold cnt. f_equal. apply filter_ext_in. intros y Hy. unfold P.
+  rewrite (H y Hy). reflexivity.
+Qed.
+
+Lemma full_ext : forall neg g g' l, (forall y, In y l -> g y = g' y) -> full neg g l = full neg g' l.
+Proof.
+  intros neg g g' l H. unfold full. induction l as [|x r IH]; simpl; [reflexivity|].
+  unfold P at 1 3. rewrite (H x (or_introl eq_refl)). f_equal. apply IH. intros y Hy. apply H. right. exact Hy.
+Qed.
+
+Lemma cnt_split : forall neg g x l, NoDup l -> In x l ->
+  cnt neg g l = (if P neg g x then 1 else 0) + cnt neg g (remove_all x l).
+Proof.
+  intros neg g x l Hnd. unfold cnt, remove_all. induction Hnd as [|y r Hy Hnd IH]; simpl; [tauto|].
+  intros [H|H].
+  - subst y. rewrite Nat.eqb_refl. simpl.
+    fold (remove_all x r). rewrite (remove_all_notin x r Hy).
+    destruct (P neg g x); simpl; reflexivity.
+  - destruct (Nat.eqb x y) eqn:E.
+    + apply Nat.eqb_eq in E. subst. contradiction.
+    + simpl. destruct (P neg g y); simpl; rewrite (IH H); lia.
+Qed.
+
+(* changing the value at one state of a duplicate-free list *)
+Definition upd (g : nat -> bool) (x : nat) (v : bool) : nat -> bool :=
+  fun y => if Nat.eqb y x then v else g y.
+
+Lemma cnt_upd : forall neg g x v l, NoDup l -> In x l ->
+  Z.of_nat (cnt neg (upd g x v) l) =
+  (Z.of_nat (cnt neg g l) + (if P neg (upd g x v) x then 1 else 0) - (if P neg g x then 1 else 0))%Z.
+Proof.
+  intros neg g x v l Hnd Hin.
+  rewrite (cnt_split neg (upd g x v) x l Hnd Hin), (cnt_split neg g x l Hnd Hin).
+  rewrite (cnt_ext neg (upd g x v) g (remove_all x l)).
+  - destruct (P neg (upd g x v) x), (P neg g x); lia.
+  - intros y Hy. apply remove_all_In in Hy. unfold upd. destruct (Nat.eqb y x) eqn:E; [|reflexivity].
+    apply Nat.eqb_eq in E. tauto.
+Qed.
+
+(* ------------------------------------------------------------ the When heap *)
+
+Lemma wb_set_idx_same : forall b, wb_set_idx b (wb_idx b) = b.
+Proof. intros []. reflexivity. Qed.
+
+Lemma find_wb_split : forall h id b, NoDup (map wb_id h) -> find_wb h id = Some b ->
+  exists h1 h2, h = h1 ++ b :: h2 /\ wb_id b = id /\
+    (forall x, In x h1 -> wb_id x <> id) /\ (forall x, In x h2 -> wb_id x <> id).
+Proof.
+  induction h as [|y r IH]; intros id b Hnd H; simpl in H; [discriminate|].
+  inversion Hnd as [|? ? Hy Hr]. subst.
+  destruct (Nat.eqb (wb_id y) id) eqn:E.
+  - inversion H. subst y. apply Nat.eqb_eq in E. exists [], r.
+    split; [reflexivity|]. split; [exact E|]. split.
+    + intros x Hx. destruct Hx.
+    + intros x Hx Hc. apply Hy. rewrite E, <- Hc. apply in_map. exact Hx.
+  - destruct (IH id b Hr H) as [h1 [h2 [Hh [Hid [H1 H2]]]]].
+    exists (y :: h1), h2. subst r.
+    split; [reflexivity|]. split; [exact Hid|]. split; [|exact H2].
+    intros x [Hx|Hx]; [subst; apply Nat.eqb_neq; exact E | apply H1; exact Hx].
+Qed.
+
+Lemma map_ne_id : forall (f : wbind -> wbind) id l,
+  (forall x, In x l -> wb_id x <> id) ->
+  map (fun b => if Nat.eqb (wb_id b) id then f b else b) l = l.
+Proof.
+  intros f id l H. induction l as [|y r IH]; simpl; [reflexivity|].
+  rewrite IH by (intros x Hx; apply H; right; exact Hx).
+  destruct (Nat.eqb (wb_id y) id) eqn:E; [|reflexivity].
+  apply Nat.eqb_eq in E. exfalso. apply (H y); [left; reflexivity | exact E].
+Qed.
+
+Lemma put_wb_split : forall h1 h2 b b', wb_id b' = wb_id b ->
+  (forall x, In x h1 -> wb_id x <> wb_id b) -> (forall x, In x h2 -> wb_id x <> wb_id b) ->
+  put_wb (h1 ++ b :: h2) b' = h1 ++ b' :: h2.
+Proof.
+  intros h1 h2 b b' Hid H1 H2. unfold put_wb. rewrite map_app. simpl. rewrite Hid.
+  rewrite Nat.eqb_refl.
+  rewrite (map_ne_id (fun _ => b') (wb_id b) h1 H1), (map_ne_id (fun _ => b') (wb_id b) h2 H2).
+  reflexivity.
+Qed.
+
+Lemma when_len_app : forall h1 h2 z, when_len (h1 ++ h2) z = when_len h1 z + when_len h2 z.
+Proof.
+  intros h1 h2 z. unfold when_len. induction h1 as [|y r IH]; simpl; [reflexivity|]. rewrite IH. lia.
+Qed.
+
+Lemma when_len_0_map : forall l z, when_len l z = 0 ->
+  map (fun b => wb_set_idx b (remove_all z (wb_idx b))) l = l.
+Proof.
+  induction l as [|y r IH]; intros z H; simpl; [reflexivity|].
+  unfold when_len in H. simpl in H. fold (when_len r z) in H.
+  rewrite IH by lia. rewrite remove_all_notin by (apply count_in_0; lia).
+  rewrite wb_set_idx_same. reflexivity.
+Qed.
+
+(* one iteration of gcWhenBinding on a heap in which the collected binding
+   is still indexed under the state *)
+Lemma gc_when_state_split : forall h1 h2 bc z,
+  (forall x, In x h1 -> wb_id x <> wb_id bc) -> (forall x, In x h2 -> wb_id x <> wb_id bc) ->
+  NoDup (wb_idx bc) -> In z (wb_idx bc) ->
+  gc_when_state (h1 ++ bc :: h2) (wb_id bc) z
+  = h1 ++ wb_set_idx bc (remove_all z (wb_idx bc)) :: h2.
+Proof.
+  intros h1 h2 bc z H1 H2 Hnd Hin. unfold gc_when_state.
+  assert (Hlen : when_len (h1 ++ bc :: h2) z = when_len h1 z + 1 + when_len h2 z).
+  { rewrite when_len_app. unfold when_len at 2. simpl. fold (when_len h2 z).
+    rewrite (count_in_NoDup z (wb_idx bc) Hnd Hin). lia. }
+  destruct (Nat.eqb (when_len (h1 ++ bc :: h2) z) 1) eqn:E.
+  - apply Nat.eqb_eq in E. rewrite map_app. simpl.
+    rewrite (when_len_0_map h1 z) by lia. rewrite (when_len_0_map h2 z) by lia. reflexivity.
+  - rewrite map_app. simpl. rewrite Nat.eqb_refl.
+    rewrite (map_ne_id (fun b => wb_set_idx b (without (wb_idx b) z)) (wb_id bc) h1 H1).
+    rewrite (map_ne_id (fun b => wb_set_idx b (without (wb_idx b) z)) (wb_id bc) h2 H2).
+    rewrite (without_NoDup_eq _ _ Hnd). reflexivity.
+Qed.
+
+Lemma wb_set_idx_id : forall b l, wb_id (wb_set_idx b l) = wb_id b.
+Proof. reflexivity. Qed.
+
+Lemma gc_fold_split : forall sts h1 h2 bc,
+  (forall x, In x h1 -> wb_id x <> wb_id bc) -> (forall x, In x h2 -> wb_id x <> wb_id bc) ->
+  NoDup (wb_idx bc) -> NoDup sts -> incl sts (wb_idx bc) ->
+  fold_left (fun h st => gc_when_state h (wb_id bc) st) sts (h1 ++ bc :: h2)
+  = h1 ++ wb_set_idx bc (fold_left (fun acc x => remove_all x acc) sts (wb_idx bc)) :: h2.
+Proof.
+  induction sts as [|z r IH]; intros h1 h2 bc H1 H2 Hnd Hs Hin; simpl.
+  - rewrite wb_set_idx_same. reflexivity.
+  - inversion Hs as [|? ? Hz Hr]. subst.
+    rewrite (gc_when_state_split h1 h2 bc z H1 H2 Hnd (Hin z (or_introl eq_refl))).
+    set (bc' := wb_set_idx bc (remove_all z (wb_idx bc))).
+    change (wb_id bc) with (wb_id bc').
+    rewrite (IH h1 h2 bc'); try assumption.
+    + destruct bc. reflexivity.
+    + subst bc'. cbn. apply remove_all_NoDup. exact Hnd.
+    + subst bc'. cbn. intros y Hy. apply remove_all_In. split; [apply Hin; right; exact Hy|].
+      intros E. subst. contradiction.
+Qed.
+
+(* gcWhenBinding of a fully indexed binding: it leaves every index, nothing else moves *)
+Lemma gc_when_split : forall h1 h2 bc wctx g,
+  (forall x, In x h1 -> wb_id x <> wb_id bc) -> (forall x, In x h2 -> wb_id x <> wb_id bc) ->
+  NoDup (wb_states bc) -> wb_idx bc = wb_states bc ->
+  fst (gc_when (h1 ++ bc :: h2) wctx bc g) = h1 ++ wb_set_idx bc [] :: h2.
+Proof.
+  intros h1 h2 bc wctx g H1 H2 Hnd Hidx. unfold gc_when. cbn [fst].
+  rewrite (gc_fold_split (wb_states bc) h1 h2 bc H1 H2); try assumption.
+  - rewrite fold_remove_all_nil; [reflexivity|]. rewrite Hidx. apply incl_refl.
+  - rewrite Hidx. exact Hnd.
+  - rewrite Hidx. apply incl_refl.
+Qed.
+
+(* ------------------------------------------------------------ bindings *)
+
+Definition live (cl : list nat) (f : nat -> bool) (b : wbind) : Prop :=
+  wb_idx b = wb_states b /\ NoDup (wb_states b) /\ wb_states b <> [] /\
+  mem (wb_id b) cl = false /\ wb_total b = length (wb_states b) /\
+  (forall x, In x (wb_states b) -> aget (wb_flags b) x = f x) /\
+  wb_matched b = Z.of_nat (cnt (wb_neg b) f (wb_states b)) /\
+  (wb_matched b < Z.of_nat (wb_total b))%Z.
+
+Definition dead (cl : list nat) (b : wbind) : Prop := wb_idx b = [] /\ mem (wb_id b) cl = true.
+
+Definition wb_ok (cl : list nat) (f : nat -> bool) (b : wbind) : Prop := dead cl b \/ live cl f b.
+
+Lemma live_ext : forall cl f g b, (forall x, In x (wb_states b) -> f x = g x) ->
+  live cl f b -> live cl g b.
+Proof.
+  intros cl f g b H [A [B [C [D [E [F [G I]]]]]]]. repeat split; auto.
+  - intros x Hx. rewrite <- (H x Hx). apply F. exact Hx.
+  - rewrite G. f_equal. apply cnt_ext. exact H.
+Qed.
+
+Lemma live_not_dead : forall cl f b, live cl f b -> dead cl b -> False.
+Proof. intros cl f b [A [B [C _]]] [D _]. rewrite A in D. contradiction. Qed.
+
+Lemma aget_aset_same : forall l k v, aget (aset l k v) k = v.
+Proof.
+  induction l as [|[k' v'] r IH]; intros k v; simpl.
+  - rewrite Nat.eqb_refl. reflexivity.
+  - destruct (Nat.eqb k k') eqn:E; simpl.
+    + rewrite Nat.eqb_refl. reflexivity.
+    + rewrite E. apply IH.
+Qed.
+
+Lemma aget_aset_other : forall l k v k', k' <> k -> aget (aset l k v) k' = aget l k'.
+Proof.
+  induction l as [|[k0 v0] r IH]; intros k v k' Hne; simpl.
+  - apply Nat.eqb_neq in Hne. rewrite Hne. reflexivity.
+  - destruct (Nat.eqb k k0) eqn:E; simpl.
+    + apply Nat.eqb_eq in E. subst k0. apply Nat.eqb_neq in Hne. rewrite Hne. reflexivity.
+    + destruct (Nat.eqb k' k0); [reflexivity|]. apply IH. exact Hne.
+Qed.
+
+Lemma find_wb_mid : forall h1 h2 b,
+  (forall x, In x h1 -> wb_id x <> wb_id b) -> find_wb (h1 ++ b :: h2) (wb_id b) = Some b.
+Proof.
+  induction h1 as [|y r IH]; intros h2 b H; simpl.
+  - rewrite Nat.eqb_refl. reflexivity.
+  - destruct (Nat.eqb (wb_id y) (wb_id b)) eqn:E.
+    + apply Nat.eqb_eq in E. exfalso. apply (H y); [left; reflexivity | exact E].
+    + apply IH. intros x Hx. apply H. right. exact Hx.
+Qed.
+
+(* everything but the When heap, whenCtx and the closed set is the same *)
+Definition wsame (s s' : sst) : Prop :=
+  ss_next s' = ss_next s /\ ss_tb s' = ss_tb s /\ ss_tctx s' = ss_tctx s /\ ss_qb s' = ss_qb s /\
+  ss_wq s' = ss_wq s /\ ss_qe s' = ss_qe s /\ ss_sctx s' = ss_sctx s /\
+  ss_allctx s' = ss_allctx s /\ ss_frozen s' = ss_frozen s /\ ss_done s' = ss_done s /\
+  ss_disposed s' = ss_disposed s /\ ss_crashed s' = ss_crashed s /\ ss_rets s' = ss_rets s.
+
+Lemma wsame_refl : forall s, wsame s s.
+Proof. intros s. unfold wsame. repeat split. Qed.
+
+Lemma wsame_trans : forall s1 s2 s3, wsame s1 s2 -> wsame s2 s3 -> wsame s1 s3.
+Proof. unfold wsame. intros s1 s2 s3 A B. intuition congruence. Qed.
+
+Lemma wsame_set_when : forall s wb wctx cl, wsame s (set_when s wb wctx cl).
+Proof. intros. unfold wsame. psimpl. repeat split. Qed.
+
+(* one visit of ProcessWhen's inner loop to a live binding, for one of its states *)
+Lemma visit_wb_live : forall s h1 h2 b x v f,
+  ss_done s = [] -> ss_wb s = h1 ++ b :: h2 ->
+  (forall y, In y h1 -> wb_id y <> wb_id b) -> (forall y, In y h2 -> wb_id y <> wb_id b) ->
+  live (ss_closed s) f b -> In x (wb_states b) ->
+  let s' := visit_wb s (wb_id b) x v in
+  exists b', wb_id b' = wb_id b /\ wb_neg b' = wb_neg b /\ wb_states b' = wb_states b /\
+    ss_wb s' = h1 ++ b' :: h2 /\ wsame s s' /\
+    ((full (wb_neg b) (upd f x v) (wb_states b) = false /\ ss_closed s' = ss_closed s /\
+      live (ss_closed s) (upd f x v) b')
+     \/ (full (wb_neg b) (upd f x v) (wb_states b) = true /\
+         ss_closed s' = close (ss_closed s) (wb_id b) /\ dead (ss_closed s') b')).
+Proof.
+  intros s h1 h2 b x v f Hdone Hwb H1 H2 [A [B [C [D [E [F [G I]]]]]]] Hx s'.
+  subst s'. unfold visit_wb. rewrite Hwb, (find_wb_mid h1 h2 b H1).
+  set (fl := aget (wb_flags b) x).
+  set (m' := if v then (if fl then wb_matched b else if wb_neg b then (wb_matched b - 1)%Z else (wb_matched b + 1)%Z)
+             else (if fl then (if wb_neg b then (wb_matched b + 1)%Z else (wb_matched b - 1)%Z) else wb_matched b)).
+  set (b1 := wb_set_match b (aset (wb_flags b) x v) m').
+  assert (Hexp : ctx_done s (wb_ctx b) = false).
+  { unfold ctx_done. destruct (wb_ctx b); [|reflexivity]. rewrite Hdone. reflexivity. }
+  rewrite Hexp.
+  assert (Hm' : m' = Z.of_nat (cnt (wb_neg b) (upd f x v) (wb_states b))).
+  { rewrite (cnt_upd (wb_neg b) f x v (wb_states b) B Hx). rewrite <- G.
+    subst m' fl. rewrite (F x Hx). unfold P, upd. rewrite Nat.eqb_refl.
+    destruct v, (f x), (wb_neg b); simpl; lia. }
+  assert (Hfl : forall y, In y (wb_states b) -> aget (wb_flags b1) y = upd f x v y).
+  { intros y Hy. subst b1. cbn. unfold upd. destruct (Nat.eqb y x) eqn:Ey.
+    - apply Nat.eqb_eq in Ey. subst y. apply aget_aset_same.
+    - apply Nat.eqb_neq in Ey. rewrite aget_aset_other by exact Ey. apply F. exact Hy. }
+  assert (Hput : put_wb (h1 ++ b :: h2) b1 = h1 ++ b1 :: h2).
+  { apply put_wb_split; [reflexivity | exact H1 | exact H2]. }
+  rewrite Hput.
+  destruct (m' <? Z.of_nat (wb_total b))%Z eqn:Elt; cbn [andb negb].
+  - exists b1. do 4 (split; [reflexivity|]). split; [apply wsame_set_when|].
+    left. split; [|split; [reflexivity|]].
+    + apply cnt_lt_full. apply Z.ltb_lt in Elt. rewrite E in Elt. lia.
+    + apply Z.ltb_lt in Elt. unfold live. subst b1. cbn [wb_set_match wb_idx wb_states wb_id wb_total wb_neg wb_matched wb_flags].
+      repeat split; auto.
+  - pose proof (gc_when_split h1 h2 b1 (ss_wctx s) true H1 H2) as Hgc.
+    change (wb_id b1) with (wb_id b) in Hgc.
+    destruct (gc_when (h1 ++ b1 :: h2) (ss_wctx s) b1 true) as [hh wc] eqn:Egc.
+    cbn [fst] in Hgc. rewrite Hgc by (subst b1; cbn; assumption).
+    exists (wb_set_idx b1 []). do 4 (split; [reflexivity|]). split; [apply wsame_set_when|].
+    right. split; [|split; [reflexivity|]].
+    + apply cnt_full. apply Z.ltb_ge in Elt. pose proof (cnt_le (wb_neg b) (upd f x v) (wb_states b)).
+      rewrite E in Elt. lia.
+    + unfold dead. psimpl. split; [reflexivity|]. cbn. apply close_self.
 Qed.
